@@ -89,6 +89,46 @@ def gate_rule(ctx, R):
     return n
 
 
+def rule_argument_layout(ctx, R="C15.layout"):
+    """chunk_dict(args, width) cuts a flat list into one {-(width-1)..0: level} dictionary per *factor*: the flat list has to be
+    factor-major (all window positions of the first factor, then of the second, ...).  Where the list is filled by nested loops
+    (or a nested comprehension), the loop over the window's factors must enclose the loop over the window's width."""
+    n = 0
+    for f in list(ctx.repo.all_functions):
+        if isinstance(f.node, ast.Lambda):
+            continue
+        cds = [c for c in calls(f.node) if dotted(c.func) == "chunk_dict" and len(c.args) == 2 and isinstance(c.args[0], ast.Name)]
+        for cd in cds:
+            name = cd.args[0].id
+            orders = []
+
+            def visit(node, chain):
+                for ch in ast.iter_child_nodes(node):
+                    if isinstance(ch, (ast.FunctionDef, ast.Lambda)) and ch is not f.node:
+                        continue
+                    if isinstance(ch, ast.For):
+                        visit(ch, chain + [ast.unparse(ch.iter)])
+                        continue
+                    if isinstance(ch, ast.Call) and call_attr(ch) == "append" and dotted(ch.func.value) == name:
+                        orders.append((ch, chain))
+                    if isinstance(ch, ast.Assign) and len(ch.targets) == 1 and dotted(ch.targets[0]) == name and isinstance(ch.value, ast.ListComp):
+                        orders.append((ch, chain + [ast.unparse(g.iter) for g in ch.value.generators]))
+                    visit(ch, chain)
+            visit(f.node, [])
+            for node, chain in orders:
+                fi = [i for i, t in enumerate(chain) if t.endswith(".factors") or ".factors)" in t]
+                wi = [i for i, t in enumerate(chain) if t.startswith("range(") and "width" in t]
+                if not fi or not wi:
+                    continue
+                n += 1
+                ctx.check(fi[-1] < wi[-1], R, f, "%s filled factor-major for chunk_dict" % name,
+                          "the loop over the window's factors encloses the loop over its width",
+                          "%s fills `%s` with the loop over the window positions (`%s`) outside the loop over the window's factors (`%s`), but chunk_dict(%s, width) "
+                          "cuts the list into one dictionary per factor: every predicate argument then mixes the levels of different factors" % (
+                              f.qual, name, chain[wi[-1]], chain[fi[-1]], name), node)
+    ctx.require(n >= 2, "chunk_dict argument lists filled by nested loops: %d found (add_implied_levels and _trial_arguments confirmed by hand)" % n)
+
+
 def check(ctx):
     repo = ctx.repo
     R = "C15.overlap"
@@ -311,6 +351,7 @@ def check(ctx):
     from . import C23
     C23.rule_carry(ctx, R="C15.carry", only=lambda f: f.module.short == "primitive")
 
+    rule_argument_layout(ctx)
     mod = sys.modules[__name__]
     control(ctx, mod, "coverage entry becomes a warning",
             lambda s: variants.in_function(s, "sweetpea/_internal/derivation_processor.py", "DerivationProcessor.generate_derivations",
@@ -325,6 +366,12 @@ def check(ctx):
     control(ctx, mod, "start offset multiplied by the stride",
             lambda s: variants.in_function(s, "sweetpea/_internal/constraint.py", "Derivation.__apply_derivation_with_complex_window",
                                            "(t * window.stride + delta) * get_trial_size(x)", "(t + delta) * window.stride * get_trial_size(x)"), "C15.shift")
+    control(ctx, mod, "window arguments gathered position-major",
+            lambda s_: variants.in_function(variants.in_function(s_, "sweetpea/_internal/primitive.py", "DerivedLevel._trial_arguments",
+                                                                 "        for f in window.factors:\n            levels = sample[f]\n            for j in range(window.width):\n",
+                                                                 "        for j in range(window.width):\n          for f in window.factors:\n            levels = sample[f]\n            if True:\n"),
+                                            "sweetpea/_internal/primitive.py", "DerivedLevel._trial_arguments", "args = []", "args = []"), "C15.layout")
+    ctx.min_instances("C15.layout", 2)
     ctx.min_instances("C15.carry", 2)
     ctx.min_instances("C15.shift", 4)
     ctx.min_instances("C15.overlap", 4)
